@@ -633,6 +633,11 @@ func c07E5(l *core.Ledger, r *rt) {
 						return ok && s.Index == 0 && calleeIs(&fc.Call, "google.golang.org/grpc/status.FromError") && fc.Call.Args[0] == ssa.Value(errp)
 					case sx.KCall:
 						nc := s.V.(*ssa.Call)
+						// status.Convert(err): FromError without the ok flag - the error's own status, or
+						// Unknown with the error's text
+						if calleeIs(&nc.Call, "google.golang.org/grpc/status.Convert") {
+							return len(nc.Call.Args) == 1 && nc.Call.Args[0] == ssa.Value(errp)
+						}
 						if !calleeIs(&nc.Call, "google.golang.org/grpc/status.New") {
 							return false
 						}
